@@ -250,14 +250,13 @@ func c16NewWorld(n int, idents []*identity) *c16World {
 	for i := 0; i < n; i++ {
 		ticks := make(chan uint64)
 		p := &c16Pub{w: w, idx: i}
-		ch := &channel{
+		ch := c16chInitUnmarshalers(&channel{
 			name:                 "c16",
 			clientIdentity:       idents[i],
 			publisher:            p,
 			messageHandlers:      make([]*messageHandler, 0),
-			unmarshalersByType:   make(map[string]func() net.TaggedUnmarshaler),
 			retransmissionTicker: retransmission.NewTicker(ticks),
-		}
+		})
 		ch.SetUnmarshaler(func() net.TaggedUnmarshaler { return &c16Msg{} })
 		w.channels = append(w.channels, ch)
 		w.pubs = append(w.pubs, p)
@@ -686,4 +685,16 @@ func TestVerif_C16_ChannelRace(t *testing.T) {
 	defer r.Finish()
 	r.Assume("race pass: no stamps; handler callbacks append to their own slice under their own mutex (receive goroutine and final reader only); Send calls and cancel results go to per-message / per-handler slots read after the goroutines ended")
 	c16ChannelWorkload(r, r.N(1, 2), false)
+}
+
+// c16chInitUnmarshalers gives the channel an empty unmarshaler registry
+// whatever the registry's concrete map type is (so the monitor keeps
+// compiling when that representation changes).
+func c16chInitUnmarshalers(c *channel) *channel {
+	f := reflect.ValueOf(c).Elem().FieldByName("unmarshalersByType")
+	if !f.IsValid() || f.Kind() != reflect.Map {
+		panic("verif: channel has no unmarshalersByType map")
+	}
+	reflect.NewAt(f.Type(), unsafe.Pointer(f.UnsafeAddr())).Elem().Set(reflect.MakeMap(f.Type()))
+	return c
 }
